@@ -261,7 +261,10 @@ static ssize_t sim_read(int fd, void* buf, size_t n) {
             }
         }
     }
-    if (len > 0) { memcpy(buf, f.data.data() + of->pos, len); }
+    if (len > 0) {
+        memcpy(buf, f.data.data() + of->pos, len);
+        sim::progress();
+    }
     of->pos += len;
     return static_cast<ssize_t>(len);
 }
@@ -306,6 +309,7 @@ static ssize_t sim_write(int fd, const void* buf, size_t n) {
     memcpy(&f.data[of->pos], buf, len);
     of->pos += len;
     f.dirty = true;
+    if (len > 0) { sim::progress(); }
     return static_cast<ssize_t>(len);
 }
 
